@@ -113,7 +113,7 @@ def create_load_table(
                     create_table_file = True
                     break
 
-    if (create_table_file or force_create) and not force_load:
+    def create_and_save():
         table = create_table(
             grammar,
             itemset_type,
@@ -126,10 +126,21 @@ def create_load_table(
         if table_file_name:
             with contextlib.suppress(PermissionError):
                 save_table(table_file_name, table)
+        return table
+
+    if (create_table_file or force_create) and not force_load:
+        table = create_and_save()
     else:
         if debug:
             h_print(f"Loading LR table from '{table_file_name}'")
-        table = load_table(table_file_name, grammar)
+        try:
+            table = load_table(table_file_name, grammar)
+        except (ValueError, KeyError, TypeError):
+            # Unreadable or incomplete table file, e.g. left by an interrupted
+            # write. Unless loading is forced, calculate the table again.
+            if force_load:
+                raise
+            table = create_and_save()
 
     return table
 
